@@ -8,6 +8,7 @@
 #include <sys/time.h>
 
 #include "varint.h"
+#include "varintBP128.h"
 #include "varintBitmap.h"
 #include "varintDict.h"
 #include "varintElias.h"
@@ -193,6 +194,20 @@ static void probe_bitmap(const uint8_t *s, size_t len) {
     vh_count("cases", 1);
 }
 
+/* decode + free only: what a hostile header makes the deserialiser itself do (no use of the accepted object) */
+static void probe_bitmap_decode_only(const uint8_t *s, size_t len) {
+    uint8_t *in = vh_gb_get(G_IN, len, -1);
+    memcpy(in, s, len);
+    varintBitmap *vb = NULL;
+    CALL("bitmap.Decode", {
+        vb = varintBitmapDecode(in, len);
+        if (vb) {
+            varintBitmapFree(vb);
+        }
+    }, {});
+    vh_count("cases", 1);
+}
+
 static void probe_rle(const uint8_t *s, size_t len) {
     uint8_t *in = vh_gb_get(G_IN, len, -1);
     memcpy(in, s, len);
@@ -205,8 +220,17 @@ static void probe_rle(const uint8_t *s, size_t len) {
     vh_count("cases", 1);
 }
 
+static void probe_bp128_count(const uint8_t *s, size_t len) {
+    uint8_t *in = vh_gb_get(G_IN, len, -1);
+    memcpy(in, s, len);
+    size_t r = 0;
+    CALL("BP128.GetCount", r = varintBP128GetCount(in, len), { (void)r; });
+    vh_count("cases", 1);
+}
+
 static void probe_all(const uint8_t *s, size_t len) {
     probe_dict(s, len);
+    probe_bp128_count(s, len);
     probe_elias(s, len);
     probe_bitmap(s, len);
     probe_rle(s, len);
@@ -419,6 +443,74 @@ static void run_elias_extreme(void) {
     }
 }
 
+/* ---------------------------------------------------------------- bitmap: structured hostile inputs
+ * The deserialiser's format is type byte | u32 cardinality | body (array: cardinality x u16; dense: 8192 bytes; runs:
+ * u32 run count + runs x 2 x u16). Every container type x cardinality / run count on both sides of every limit the
+ * decoder knows (4096, 65535|65536|65537, 2^31, 2^32-1) x declared length {exactly what the header needs, one less,
+ * one more, 64} x 3 body fills - including the maximal containers the library itself never writes. */
+static void run_bitmap_structured(void) {
+    if (!vh_section_begin("bitmap-structured")) {
+        return;
+    }
+    static uint8_t big[5 + 4 + 65540 * 4 + 64];
+    static const uint32_t CARD[12] = {0, 1, 2, 4095, 4096, 4097, 65535, 65536, 65537, 0x7fffffffu, 0x80000000u, 0xffffffffu};
+    static const uint32_t RUNS[10] = {0, 1, 2, 32767, 32768, 65535, 65536, 65537, 0x80000000u, 0xffffffffu};
+    static const int TYPES[5] = {0, 1, 2, 3, 255};
+    for (int ti = 0; ti < 5; ti++) {
+        for (int ci = 0; ci < 12; ci++) {
+            for (int ri = 0; ri < 10; ri++) {
+                if (TYPES[ti] != 2 && ri != 0) {
+                    continue;
+                }
+                if (!vh_case()) {
+                    continue;
+                }
+                uint32_t card = CARD[ci], runs = RUNS[ri];
+                size_t need = 5;
+                if (TYPES[ti] == 0) {
+                    need += (size_t)(card > 65540 ? 65540 : card) * 2;
+                } else if (TYPES[ti] == 1) {
+                    need += 8192;
+                } else if (TYPES[ti] == 2) {
+                    need += 4 + (size_t)(runs > 65540 ? 65540 : runs) * 4;
+                }
+                for (int fill = 0; fill < 3; fill++) {
+                    memset(big, fill == 1 ? 0xff : 0x00, sizeof big);
+                    big[0] = (uint8_t)TYPES[ti];
+                    memcpy(big + 1, &card, 4);
+                    size_t body = 5;
+                    if (TYPES[ti] == 2) {
+                        memcpy(big + 5, &runs, 4);
+                        body = 9;
+                    }
+                    if (fill == 2) {
+                        /* ascending 16-bit values (valid members / run bounds) */
+                        for (size_t k = 0; body + 2 * k + 1 < sizeof big; k++) {
+                            uint16_t x = (uint16_t)k;
+                            memcpy(big + body + 2 * k, &x, 2);
+                        }
+                    }
+                    size_t lens[4] = {need, need ? need - 1 : 0, need + 1, 64};
+                    for (int li = 0; li < 4; li++) {
+                        size_t len = lens[li];
+                        if (len > sizeof big) {
+                            continue;
+                        }
+                        snprintf(cur_desc, sizeof cur_desc, "bitmap: type %d cardinality %u%s%.0u, body fill %s, declared length %zu (header needs %zu)", TYPES[ti], card, TYPES[ti] == 2 ? " runs " : "", TYPES[ti] == 2 ? runs : 0,
+                                 fill == 0 ? "00" : fill == 1 ? "ff" : "ascending", len, need);
+                        probe_bitmap_decode_only(big, len);
+                    }
+                }
+                if (ri == 0) {
+                    char ck[48];
+                    snprintf(ck, sizeof ck, "bitmap-structured/type%d/card%s", TYPES[ti], card <= 4096 ? "<=4096" : card <= 65536 ? "<=65536" : ">65536");
+                    vh_class(ck, "cardinality %u", card);
+                }
+            }
+        }
+    }
+}
+
 /* ---------------------------------------------------------------- deviations from valid encodings */
 static uint8_t encbuf[1 << 20];
 
@@ -587,7 +679,7 @@ static void run_deviations(void) {
 int main(int argc, char **argv) {
     vh_init(argc, argv);
     vh_sandbox_init();
-    vh_gb_init(G_IN, 1 << 16);
+    vh_gb_init(G_IN, 1 << 19);
     vh_gb_init(G_OUT, 1 << 16);
     vm_init((size_t)256 << 20);
     run_tagged();
@@ -595,6 +687,7 @@ int main(int argc, char **argv) {
     run_strings();
     elias_light = 0;
     run_elias_extreme();
+    run_bitmap_structured();
     run_deviations();
     vh_write_out();
     return 0;
